@@ -29,6 +29,11 @@ MUTANTS = [
     ("rename-leaves-hint-set", [("node.go", "\t\t\tnodeInt := n.interfaces[n.intErrNum]\n\t\t\tn.intErrNum = -1\n", "\t\t\tnodeInt := n.interfaces[n.intErrNum]\n")]),
     # the mutator forgets the errorf that clears the hint: the NEXT failing lookup (a read path) clears it
     ("rename-skips-errorf", [("node.go", "\t\t\tn.intErrNum = tmpInt.number\n\t\t\treturn n.errorf(&UpdateNameError{Err: err})", "\t\t\tn.intErrNum = tmpInt.number\n\t\t\treturn &UpdateNameError{Err: err}")]),
+    # boundary mutants of the anchored hint protocol
+    ("errorf-hint-test-off-by-one", [("node.go", "\t\tif n.intErrNum >= 0 {", "\t\tif n.intErrNum > 0 {")]),
+    ("enum-hint-set-only-for-message-parent", [("signal_enum.go", "\t\t\t\tif err := tmpSig.parentMuxSig.verifySignalSizeAmount(tmpSig.entityID, newSize-prevSize); err != nil {\n\t\t\t\t\tse.parErrID = tmpSig.entityID", "\t\t\t\tif err := tmpSig.parentMuxSig.verifySignalSizeAmount(tmpSig.entityID, newSize-prevSize); err != nil {\n\t\t\t\t\tse.parErrID = \"\"")]),
+    ("enum-verify-skips-hint", [("signal_enum.go", "\t\t\t\tif err := tmpSig.parentMsg.verifySignalSizeAmount(tmpSig.entityID, newSize-prevSize); err != nil {\n\t\t\t\t\tse.parErrID = tmpSig.entityID", "\t\t\t\tif err := tmpSig.parentMsg.verifySignalSizeAmount(tmpSig.entityID, newSize-prevSize); err != nil {")]),
+    ("sentmessages-sorted-descending", [("node_iterface.go", "\tmsgSlice := ni.sentMessages.getValues()\n\tslices.SortFunc(msgSlice, compareMessages)", "\tmsgSlice := ni.sentMessages.getValues()\n\tslices.SortFunc(msgSlice, func(a, b *Message) int { return compareMessages(b, a) })")]),
     # ExportNetwork workers append to a shared slice without a mutex
     ("export-workers-share-slice", [("exporter.go", "func exportBusAsync(w io.Writer, bus *Bus, wg *sync.WaitGroup) {\n\tdefer wg.Done()\n",
                                      "var exportedBusNames []string\n\nfunc exportBusAsync(w io.Writer, bus *Bus, wg *sync.WaitGroup) {\n\tdefer wg.Done()\n\texportedBusNames = append(exportedBusNames[:0], bus.name)\n")]),
